@@ -521,6 +521,7 @@ static void iauth_xquery_check_password(struct iauth_request *req,
     struct iauth_xquery_modes m_set;
     struct iauth_xquery_modes m_clr;
     const char *pw = password;
+    const char *sep;
     int was_hidden_only;
     int is_hidden_only;
     int no_account;
@@ -558,9 +559,9 @@ static void iauth_xquery_check_password(struct iauth_request *req,
     while (*pw == ' ') pw++;
 
     /* Check that there is a separation between <accountname> and
-     * <password>.
+     * <password>, and a <password> after it rather than more blanks.
      */
-    if (!strchr(pw, ' '))
+    if (!(sep = strchr(pw, ' ')) || (sep[strspn(sep, " ")] == '\0'))
         return;
 
     /* Update the client's requested modes. */
